@@ -51,6 +51,7 @@ Verdict(t) ==
   IF ~LookupOK(t.lookup_full, t.number, S) THEN "REJECT LookupFull" ELSE
   IF ~(AbsInt(t.latt) \in 1..7 /\ Describes(t.reduced, t.latt, S)) THEN "REJECT ReducedDescribes" \o KnownLatt(t, S) ELSE
   IF ~LookupOK(t.lookup_reduced, t.number, S) THEN "REJECT LookupReduced" \o KnownLatt(t, S) ELSE
+  IF ~LookupOK(t.lookup_reduced_again, t.number, S) THEN "REJECT LookupReducedRepeated" ELSE
   IF \E k \in DOMAIN t.perms : ~PermOK(t, S, k) THEN "REJECT PermutedReduce" \o KnownLatt(t, S) ELSE
   IF t.reduced # Reduce(t.ops, t.latt) THEN "ACCEPT drift=Reduce" ELSE
   IF ~StepsOK(t) THEN "ACCEPT drift=ReduceSteps" ELSE
